@@ -345,7 +345,8 @@ class Pair(object):
             res.violation(e.key, 'POINT(0)/POINT(1): %s' % e, {'mode': label})
             raise
         if start is not None and p0 != start:
-            res.violation('draw:start-readback', '%s: after PSET%r POINT(0),POINT(1) = %r' % (label, start, p0), {'mode': label, 'start': list(start)})
+            # harness assumption (not part of the statement) broken: nothing can be decided
+            res.inconclusive('harness: after PSET%r POINT(0),POINT(1) = %r in %s' % (start, p0, label))
             return
         p0 = (int(p0[0]), int(p0[1]))
         rd = Render(rng, plain)
